@@ -2005,3 +2005,499 @@ Proof.
   - split; [vm_compute; reflexivity|]. split; [left; reflexivity|]. split; [vm_compute; reflexivity|].
     eexists. split; [vm_compute; left; reflexivity|reflexivity].
 Qed.
+
+(* ================================================================ C10: deposit rows and deposit credits *)
+
+Definition row_of (c : credit) (b : bool) : grow :=
+  mk_grow (c_wallet c) b (negb (is_unspent c)) (c_tx c) (c_height c) (c_vout c).
+
+(* a credit is identified by (transaction, height, output index) — what getCreditsByTxHashHeight reads;
+   C01's invariant gives it (one block per synced height, one credit per output of a block) *)
+Definition ckey (c : credit) : N * Z * N := (c_tx c, c_height c, c_vout c).
+Definition cred_unique (cs : list credit) : Prop := NoDup (map ckey cs).
+
+Lemma cred_unique_eq : forall cs c1 c2, cred_unique cs -> In c1 cs -> In c2 cs -> ckey c1 = ckey c2 -> c1 = c2.
+Proof.
+  induction cs as [|c cs IH]; intros c1 c2 U H1 H2 E; [destruct H1|].
+  unfold cred_unique in U. cbn in U. inversion U as [|x l Hx Hl]; subst.
+  destruct H1 as [<-|H1]; destruct H2 as [<-|H2]; auto.
+  - exfalso. apply Hx. rewrite E. apply in_map. exact H2.
+  - exfalso. apply Hx. rewrite <- E. apply in_map. exact H1.
+Qed.
+
+Definition same_key (r : grow) (c : credit) : Prop := c_tx c = g_tx r /\ c_height c = g_height r /\ c_vout c = g_vout r.
+
+(* the deposit rows are exactly the staking/binding credits: every such credit has its row, with the
+   withdrawn bit equal to its spent mark; every row belongs to a credit; no row twice *)
+Record rows_ok (cs : list credit) (g : list grow) : Prop := {
+  ro_complete : forall c b, In c cs -> game_kind (c_class c) = Some b -> In (row_of c b) g;
+  ro_accurate : forall r c, In r g -> In c cs -> same_key r c -> exists b, game_kind (c_class c) = Some b /\ r = row_of c b;
+  ro_owned : forall r, In r g -> exists c, In c cs /\ same_key r c;
+  ro_nodup : NoDup g
+}.
+
+Lemma grow_eqb_eq : forall a b, grow_eqb a b = true <-> a = b.
+Proof.
+  intros [w1 b1 d1 t1 h1 v1] [w2 b2 d2 t2 h2 v2]. unfold grow_eqb. cbn.
+  rewrite !andb_true_iff, !N.eqb_eq, Z.eqb_eq, !Bool.eqb_true_iff. split.
+  - intros (((((-> & ->) & ->) & ->) & ->) & ->). reflexivity.
+  - intros E. inversion E. repeat split; reflexivity.
+Qed.
+
+Lemma g_del_in : forall l r x, In x (g_del l r) <-> In x l /\ x <> r.
+Proof.
+  intros l r x. unfold g_del. rewrite filter_In. split.
+  - intros [H1 H2]. split; [exact H1|]. intros ->. rewrite (proj2 (grow_eqb_eq r r) eq_refl) in H2. discriminate.
+  - intros [H1 H2]. split; [exact H1|]. destruct (grow_eqb r x) eqn:E; [|reflexivity]. apply grow_eqb_eq in E. congruence.
+Qed.
+
+Lemma g_put_in : forall l r x, In x (g_put l r) <-> x = r \/ In x l.
+Proof.
+  intros l r x. unfold g_put. cbn [In]. rewrite g_del_in. split.
+  - intros [->|[H _]]; auto.
+  - intros [->|H]; [left; reflexivity|]. destruct (grow_eqb r x) eqn:E.
+    + apply grow_eqb_eq in E. left. exact E.
+    + right. split; [exact H|]. intros ->. rewrite (proj2 (grow_eqb_eq r r) eq_refl) in E. discriminate.
+Qed.
+
+Lemma g_del_nodup : forall l r, NoDup l -> NoDup (g_del l r).
+Proof. intros l r H. unfold g_del. apply NoDup_filter. exact H. Qed.
+
+Lemma g_put_nodup : forall l r, NoDup l -> NoDup (g_put l r).
+Proof.
+  intros l r H. unfold g_put. constructor; [|apply g_del_nodup; exact H].
+  intros Hin. apply g_del_in in Hin. destruct Hin as [_ Hne]. congruence.
+Qed.
+
+Lemma g_mem_in : forall r l, g_mem r l = true <-> In r l.
+Proof.
+  intros r l. unfold g_mem. rewrite existsb_exists. split.
+  - intros [x [Hx E]]. apply grow_eqb_eq in E. subst. exact Hx.
+  - intros H. exists r. split; [exact H|apply grow_eqb_eq; reflexivity].
+Qed.
+
+(* ---- spending one credit *)
+
+Lemma spend_credit_spec :
+  forall cs w op by_ cs', spend_credit cs w op by_ = Some cs' ->
+    exists l1 c l2, cs = l1 ++ c :: l2 /\ cs' = l1 ++ set_spent c (Some by_) :: l2 /\
+                    is_unspent c = true /\ c_wallet c = w /\ credit_op c = op /\ find_unspent cs w op = Some c.
+Proof.
+  induction cs as [|c cs IH]; intros w op by_ cs' H; cbn in H; [discriminate|].
+  unfold find_unspent. cbn [find].
+  destruct (op_eqb (credit_op c) op && (c_wallet c =? w)%N && is_unspent c) eqn:E.
+  - inversion H; subst cs'. rewrite !andb_true_iff in E. destruct E as ((E1 & E2) & E3).
+    exists [], c, cs. repeat split; auto; [apply N.eqb_eq; exact E2|apply op_eqb_eq; exact E1].
+  - destruct (spend_credit cs w op by_) as [rest|] eqn:Er; [|discriminate]. inversion H; subst cs'.
+    destruct (IH _ _ _ _ Er) as (l1 & c0 & l2 & A & B & C & D & F & G).
+    exists (c :: l1), c0, l2. rewrite A, B. repeat split; auto. rewrite <- A. exact G.
+Qed.
+
+Lemma set_spent_fields : forall c s,
+  c_tx (set_spent c s) = c_tx c /\ c_vout (set_spent c s) = c_vout c /\ c_height (set_spent c s) = c_height c /\
+  c_wallet (set_spent c s) = c_wallet c /\ c_class (set_spent c s) = c_class c /\ c_amount (set_spent c s) = c_amount c /\
+  c_sh (set_spent c s) = c_sh c /\ c_maturity (set_spent c s) = c_maturity c /\ c_bid (set_spent c s) = c_bid c.
+Proof. intros c s. repeat split. Qed.
+
+(* updateMinedBalance: the row of a spent deposit flips to withdrawn, nothing else changes *)
+Lemma middle_key_fresh :
+  forall (l1 l2 : list credit) c, cred_unique (l1 ++ c :: l2) -> forall x, In x (l1 ++ l2) -> ckey x <> ckey c.
+Proof.
+  intros l1 l2 c U x Hx E. unfold cred_unique in U. rewrite map_app in U. cbn [map] in U.
+  apply NoDup_remove_2 in U. apply U. rewrite <- map_app. rewrite <- E. apply in_map. exact Hx.
+Qed.
+
+Lemma same_key_ckey : forall r c, same_key r c <-> ckey c = (g_tx r, g_height r, g_vout r).
+Proof.
+  intros r c. unfold same_key, ckey. split.
+  - intros (A & B & C). rewrite A, B, C. reflexivity.
+  - intros E. inversion E. repeat split; reflexivity.
+Qed.
+
+Lemma withdraw_one_rows_ok :
+  forall l1 c l2 by_ g b,
+    rows_ok (l1 ++ c :: l2) g -> cred_unique (l1 ++ c :: l2) -> is_unspent c = true -> game_kind (c_class c) = Some b ->
+    rows_ok (l1 ++ set_spent c (Some by_) :: l2) (g_put (g_del g (row_of c b)) (row_of (set_spent c (Some by_)) b)) /\
+    cred_unique (l1 ++ set_spent c (Some by_) :: l2).
+Proof.
+  intros l1 c l2 by_ g b R U Hu Hk.
+  set (c' := set_spent c (Some by_)).
+  set (r0 := row_of c b). set (r1 := row_of c' b).
+  assert (Hc : In c (l1 ++ c :: l2)) by (apply in_or_app; right; left; reflexivity).
+  assert (Hfresh : forall x, In x (l1 ++ l2) -> ckey x <> ckey c) by (apply middle_key_fresh; exact U).
+  assert (Hsplit : forall x, In x (l1 ++ c' :: l2) <-> x = c' \/ In x (l1 ++ l2)).
+  { intros x. rewrite !in_app_iff. cbn [In]. split; [intros [H|[H|H]]|intros [H|[H|H]]]; auto. }
+  assert (Hsplit0 : forall x, In x (l1 ++ c :: l2) <-> x = c \/ In x (l1 ++ l2)).
+  { intros x. rewrite !in_app_iff. cbn [In]. split; [intros [H|[H|H]]|intros [H|[H|H]]]; auto. }
+  assert (Hr01 : r0 <> r1).
+  { unfold r0, r1, row_of, c'. cbn. rewrite Hu. cbn. intros E. inversion E. }
+  assert (Hkey' : ckey c' = ckey c) by reflexivity.
+  split.
+  - constructor.
+    + intros x bx Hx Hkx. apply g_put_in. apply Hsplit in Hx. destruct Hx as [->|Hx].
+      * left. unfold c' in Hkx. cbn in Hkx. rewrite Hk in Hkx. inversion Hkx; subst bx. reflexivity.
+      * right. apply g_del_in. split.
+        -- apply (ro_complete _ _ R); [apply Hsplit0; right; exact Hx|exact Hkx].
+        -- intros E. apply (Hfresh x Hx). unfold r0, row_of in E. inversion E. unfold ckey. congruence.
+    + intros r x Hr Hx Hsk. apply g_put_in in Hr. apply Hsplit in Hx.
+      destruct Hr as [->|Hr].
+      * destruct Hx as [->|Hx]; [exists b; split; [exact Hk|reflexivity]|].
+        exfalso. apply (Hfresh x Hx). apply same_key_ckey in Hsk. rewrite Hsk. reflexivity.
+      * apply g_del_in in Hr. destruct Hr as [Hr Hne].
+        destruct Hx as [->|Hx].
+        -- (* an old row with the key of c is the row of c, which was deleted *)
+           exfalso. destruct (ro_accurate _ _ R r c Hr Hc) as [bx [Hbx Er]].
+           { apply same_key_ckey. apply same_key_ckey in Hsk. rewrite <- Hsk. symmetry. exact Hkey'. }
+           rewrite Hk in Hbx. inversion Hbx; subst bx. apply Hne. exact Er.
+        -- apply (ro_accurate _ _ R r x Hr); [apply Hsplit0; right; exact Hx|exact Hsk].
+    + intros r Hr. apply g_put_in in Hr. destruct Hr as [->|Hr].
+      * exists c'. split; [apply Hsplit; left; reflexivity|]. repeat split.
+      * apply g_del_in in Hr. destruct Hr as [Hr Hne].
+        destruct (ro_owned _ _ R r Hr) as [x [Hx Hsk]]. apply Hsplit0 in Hx. destruct Hx as [->|Hx].
+        -- exists c'. split; [apply Hsplit; left; reflexivity|]. exact Hsk.
+        -- exists x. split; [apply Hsplit; right; exact Hx|exact Hsk].
+    + apply g_put_nodup. apply g_del_nodup. exact (ro_nodup _ _ R).
+  - unfold cred_unique in *. rewrite map_app in *. cbn [map] in *. exact U.
+Qed.
+
+(* spending a credit that is not a deposit leaves the rows alone *)
+Lemma spend_plain_rows_ok :
+  forall l1 c l2 by_ g,
+    rows_ok (l1 ++ c :: l2) g -> cred_unique (l1 ++ c :: l2) -> game_kind (c_class c) = None ->
+    rows_ok (l1 ++ set_spent c (Some by_) :: l2) g /\ cred_unique (l1 ++ set_spent c (Some by_) :: l2).
+Proof.
+  intros l1 c l2 by_ g R U Hk.
+  set (c' := set_spent c (Some by_)).
+  assert (Hc : In c (l1 ++ c :: l2)) by (apply in_or_app; right; left; reflexivity).
+  assert (Hsplit : forall x, In x (l1 ++ c' :: l2) <-> x = c' \/ In x (l1 ++ l2)).
+  { intros x. rewrite !in_app_iff. cbn [In]. split; [intros [H|[H|H]]|intros [H|[H|H]]]; auto. }
+  assert (Hsplit0 : forall x, In x (l1 ++ c :: l2) <-> x = c \/ In x (l1 ++ l2)).
+  { intros x. rewrite !in_app_iff. cbn [In]. split; [intros [H|[H|H]]|intros [H|[H|H]]]; auto. }
+  split.
+  - constructor.
+    + intros x bx Hx Hkx. apply Hsplit in Hx. destruct Hx as [->|Hx].
+      * unfold c' in Hkx. cbn in Hkx. congruence.
+      * apply (ro_complete _ _ R); [apply Hsplit0; right; exact Hx|exact Hkx].
+    + intros r x Hr Hx Hsk. apply Hsplit in Hx. destruct Hx as [->|Hx].
+      * exfalso. destruct (ro_accurate _ _ R r c Hr Hc Hsk) as [bx [Hbx _]]. congruence.
+      * apply (ro_accurate _ _ R r x Hr); [apply Hsplit0; right; exact Hx|exact Hsk].
+    + intros r Hr. destruct (ro_owned _ _ R r Hr) as [x [Hx Hsk]]. apply Hsplit0 in Hx. destruct Hx as [->|Hx].
+      * exists c'. split; [apply Hsplit; left; reflexivity|exact Hsk].
+      * exists x. split; [apply Hsplit; right; exact Hx|exact Hsk].
+    + exact (ro_nodup _ _ R).
+  - unfold cred_unique in *. rewrite map_app in *. cbn [map] in *. exact U.
+Qed.
+
+Lemma withdraw_ins_rows_ok :
+  forall ins cs g t h cs' g', withdraw_ins cs g t h ins = POk (cs', g') ->
+    rows_ok cs g -> cred_unique cs -> rows_ok cs' g' /\ cred_unique cs'.
+Proof.
+  induction ins as [|ri ins IH]; intros cs g t h cs' g' H R U; cbn [withdraw_ins] in H.
+  - inversion H; subst. split; assumption.
+  - destruct (find_unspent cs (ri_wallet ri) (ri_prev ri)) as [c|] eqn:Ef; [|discriminate].
+    destruct (spend_credit cs (ri_wallet ri) (ri_prev ri) (t_id t, ri_index ri, h)) as [cs1|] eqn:Es; [|discriminate].
+    destruct (spend_credit_spec _ _ _ _ _ Es) as (l1 & c0 & l2 & A & B & C & D & F & G).
+    rewrite G in Ef. inversion Ef; subst c0. subst cs cs1.
+    destruct (game_kind (c_class c)) as [b|] eqn:Ek.
+    + destruct (g_mem _ g) eqn:Em; [|discriminate].
+      assert (E0 : mk_grow (ri_wallet ri) b false (fst (ri_prev ri)) (c_height c) (snd (ri_prev ri)) = row_of c b).
+      { unfold row_of. rewrite C, D. cbn. rewrite <- F. reflexivity. }
+      assert (E1 : mk_grow (ri_wallet ri) b true (fst (ri_prev ri)) (c_height c) (snd (ri_prev ri)) = row_of (set_spent c (Some (t_id t, ri_index ri, h))) b).
+      { unfold row_of. cbn. rewrite D, <- F. reflexivity. }
+      rewrite E0, E1 in H.
+      destruct (withdraw_one_rows_ok l1 c l2 (t_id t, ri_index ri, h) g b R U C Ek) as [R1 U1].
+      eapply IH; eauto.
+    + destruct (spend_plain_rows_ok l1 c l2 (t_id t, ri_index ri, h) g R U Ek) as [R1 U1].
+      eapply IH; eauto.
+Qed.
+
+(* ---- AddCredits *)
+
+Definition new_credit (p : params) (t : tx) (h : Z) (bid : N) (ro : rel_out) : credit :=
+  {| c_tx := t_id t; c_vout := ro_index ro; c_height := h; c_bid := bid;
+     c_amount := o_val (ro_out ro); c_sh := o_sh (ro_out ro); c_wallet := ro_wallet ro;
+     c_class := o_class (ro_out ro); c_maturity := maturity_of p (t_cb t) (o_class (ro_out ro)); c_spent := None |}.
+
+Lemma apply_outs_spec :
+  forall p t h bid outs cs cs', apply_outs p cs t h bid outs = Ok cs' -> cs' = cs ++ map (new_credit p t h bid) outs.
+Proof.
+  intros p t h bid outs. induction outs as [|ro outs IH]; intros cs cs' H; cbn in H.
+  - inversion H. rewrite app_nil_r. reflexivity.
+  - destruct (exists_credit_at cs (t_id t, ro_index ro) h bid); [discriminate|].
+    apply IH in H. rewrite H. rewrite <- app_assoc. reflexivity.
+Qed.
+
+Lemma add_game_rows_in :
+  forall tid h outs g x,
+    In x (add_game_rows g tid h outs) <->
+    In x g \/ exists ro b, In ro outs /\ game_kind (o_class (ro_out ro)) = Some b /\ x = mk_grow (ro_wallet ro) b false tid h (ro_index ro).
+Proof.
+  intros tid h outs. unfold add_game_rows. induction outs as [|ro outs IH]; intros g x; cbn [fold_left].
+  - split; [intros H; left; exact H|intros [H|(ro & b & [] & _)]; exact H].
+  - rewrite IH. destruct (game_kind (o_class (ro_out ro))) as [b|] eqn:Ek.
+    + rewrite g_put_in. split.
+      * intros [[->|H]|(ro' & b' & H1 & H2 & H3)].
+        -- right. exists ro, b. split; [left; reflexivity|split; [exact Ek|reflexivity]].
+        -- left. exact H.
+        -- right. exists ro', b'. split; [right; exact H1|split; assumption].
+      * intros [H|(ro' & b' & [<-|H1] & H2 & H3)].
+        -- left. right. exact H.
+        -- left. left. rewrite Ek in H2. inversion H2; subst b'. exact H3.
+        -- right. exists ro', b'. split; [exact H1|split; assumption].
+    + split.
+      * intros [H|(ro' & b' & H1 & H2 & H3)]; [left; exact H|right; exists ro', b'; split; [right; exact H1|split; assumption]].
+      * intros [H|(ro' & b' & [<-|H1] & H2 & H3)]; [left; exact H|congruence|right; exists ro', b'; split; [exact H1|split; assumption]].
+Qed.
+
+Lemma add_game_rows_nodup : forall tid h outs g, NoDup g -> NoDup (add_game_rows g tid h outs).
+Proof.
+  intros tid h outs. unfold add_game_rows. induction outs as [|ro outs IH]; intros g H; cbn [fold_left]; [exact H|].
+  apply IH. destruct (game_kind (o_class (ro_out ro))); [apply g_put_nodup; exact H|exact H].
+Qed.
+
+Lemma add_credits_rows_ok :
+  forall p t h bid outs cs g,
+    rows_ok cs g -> cred_unique (cs ++ map (new_credit p t h bid) outs) ->
+    rows_ok (cs ++ map (new_credit p t h bid) outs) (add_game_rows g (t_id t) h outs).
+Proof.
+  intros p t h bid outs cs g R U. constructor.
+  - intros c b Hc Hk. apply add_game_rows_in. apply in_app_or in Hc. destruct Hc as [Hc|Hc].
+    + left. apply (ro_complete _ _ R); assumption.
+    + right. apply in_map_iff in Hc. destruct Hc as [ro [<- Hro]]. exists ro, b. split; [exact Hro|]. split; [exact Hk|reflexivity].
+  - intros r c Hr Hc Hsk. apply add_game_rows_in in Hr. destruct Hr as [Hr|(ro & b & Hro & Hk & ->)].
+    + (* an old row: its credit is an old credit with the same key, hence the same credit *)
+      destruct (ro_owned _ _ R r Hr) as [c0 [Hc0 Hsk0]].
+      assert (E : c0 = c).
+      { apply (cred_unique_eq _ c0 c U); [apply in_or_app; left; exact Hc0|exact Hc|].
+        apply same_key_ckey in Hsk. apply same_key_ckey in Hsk0. congruence. }
+      subst c0. apply (ro_accurate _ _ R r c Hr Hc0 Hsk).
+    + assert (E : new_credit p t h bid ro = c).
+      { apply (cred_unique_eq _ _ c U); [apply in_or_app; right; apply in_map; exact Hro|exact Hc|].
+        apply same_key_ckey in Hsk. cbn in Hsk. rewrite Hsk. reflexivity. }
+      subst c. exists b. split; [exact Hk|reflexivity].
+  - intros r Hr. apply add_game_rows_in in Hr. destruct Hr as [Hr|(ro & b & Hro & Hk & ->)].
+    + destruct (ro_owned _ _ R r Hr) as [c [Hc Hsk]]. exists c. split; [apply in_or_app; left; exact Hc|exact Hsk].
+    + exists (new_credit p t h bid ro). split; [apply in_or_app; right; apply in_map; exact Hro|]. repeat split.
+  - apply add_game_rows_nodup. exact (ro_nodup _ _ R).
+Qed.
+
+(* the deposit rows stay exactly the deposit credits when a mined record is applied *)
+Theorem m_apply_rec_rows_ok :
+  forall p h bid m r m', m_apply_rec p h bid m r = Some m' ->
+    rows_ok (credits (m_w m)) (m_game m) -> cred_unique (credits (m_w m)) -> cred_unique (credits (m_w m')) ->
+    rows_ok (credits (m_w m')) (m_game m').
+Proof.
+  intros p h bid m r m' H R U U'. unfold m_apply_rec in H.
+  destruct (withdraw_ins (credits (m_w m)) (m_game m) (rr_tx r) h (rr_ins r)) as [[cs1 g1]|e] eqn:Ew; [|discriminate].
+  destruct (withdraw_ins_rows_ok _ _ _ _ _ _ _ Ew R U) as [R1 U1].
+  destruct (apply_outs p cs1 (rr_tx r) h bid (rr_outs r)) as [cs2|e] eqn:Ea; [|discriminate].
+  inversion H; subst m'. cbn [m_w m_game credits] in *.
+  rewrite (apply_outs_spec _ _ _ _ _ _ _ Ea) in *. apply add_credits_rows_ok; assumption.
+Qed.
+
+Theorem m_apply_recs_rows_ok :
+  forall p h bid recs m m', m_apply_recs p h bid m recs = Some m' ->
+    rows_ok (credits (m_w m)) (m_game m) ->
+    (* key uniqueness of the credits holds in every intermediate state (C01's invariant) *)
+    (forall k mk, m_apply_recs p h bid m (firstn k recs) = Some mk -> cred_unique (credits (m_w mk))) ->
+    rows_ok (credits (m_w m')) (m_game m').
+Proof.
+  intros p h bid recs. induction recs as [|r recs IH]; intros m m' H R U; cbn in H.
+  - inversion H; subst. exact R.
+  - destruct (m_apply_rec p h bid m r) as [m1|] eqn:E; [|discriminate].
+    apply (IH m1 m' H).
+    + eapply m_apply_rec_rows_ok; [exact E|exact R|exact (U 0%nat m eq_refl)|].
+      apply (U 1%nat m1). cbn. rewrite E. destruct recs; reflexivity.
+    + intros k mk Hk. apply (U (S k) mk). cbn. rewrite E. exact Hk.
+Qed.
+
+(* ---- what GetStakingHistory / GetBindingHistory report for mined deposits *)
+
+Definition hrow_of (s : pstate) (c : credit) (binding : bool) : hrow :=
+  {| hr_tx := c_tx c; hr_vout := c_vout c; hr_amount := c_amount c; hr_sh := c_sh c;
+     hr_frozen := (if binding then 0 else c_maturity c - 1); hr_height := c_height c;
+     hr_spent := negb (is_unspent c);
+     hr_sbu := (if is_unspent c then spent_by_unmined s (c_tx c, c_vout c) else false);
+     hr_pending := false |}.
+
+Lemma credit_by_height_some :
+  forall cs tid h v c, credit_by_height cs tid h v = Some c -> In c cs /\ c_tx c = tid /\ c_height c = h /\ c_vout c = v.
+Proof.
+  intros cs tid h v c H. unfold credit_by_height in H. apply find_some in H. destruct H as [Hin E].
+  rewrite !andb_true_iff in E. destruct E as ((E1 & E2) & E3).
+  apply N.eqb_eq in E1. apply Z.eqb_eq in E2. apply N.eqb_eq in E3. auto.
+Qed.
+
+Lemma credit_by_height_unique :
+  forall cs c, cred_unique cs -> In c cs -> credit_by_height cs (c_tx c) (c_height c) (c_vout c) = Some c.
+Proof.
+  intros cs c U Hc. unfold credit_by_height.
+  destruct (find (fun c0 => (c_tx c0 =? c_tx c)%N && (c_height c0 =? c_height c) && (c_vout c0 =? c_vout c)%N) cs) as [c0|] eqn:E.
+  - destruct (credit_by_height_some cs _ _ _ c0 E) as (H0 & A & B & C).
+    f_equal. apply (cred_unique_eq cs c0 c U H0 Hc). unfold ckey. congruence.
+  - exfalso. apply (find_none _ _ E) in Hc. rewrite !N.eqb_refl, Z.eqb_refl in Hc. discriminate.
+Qed.
+
+(* C10, history exact (mined deposits): the rows reported for wallet w are exactly its staking/binding
+   credits — amount, address, frozen period and height of the credit, withdrawn iff the credit is spent,
+   flagged iff a pending transaction is registered on it *)
+Theorem mined_history_exact :
+  forall n s w binding excl,
+    rows_ok (credits (ps_w s)) (ps_game s) -> cred_unique (credits (ps_w s)) ->
+    (forall c, In c (credits (ps_w s)) -> c_height c <> 0) ->
+    forall hr, In hr (mined_history n s w binding excl) <->
+      exists c, In c (credits (ps_w s)) /\ c_wallet c = w /\ game_kind (c_class c) = Some binding /\
+                (excl = true -> is_unspent c = true) /\
+                (binding = true -> binding_tx_readable n s (c_tx c) (c_height c) = true) /\
+                hr = hrow_of s c binding.
+Proof.
+  intros n s w binding excl R U Hh hr. unfold mined_history. rewrite in_flat_map. split.
+  - intros [r [Hr Hin]].
+    destruct ((g_wallet r =? w)%N && Bool.eqb (g_binding r) binding && negb (excl && g_withdrawn r) && negb (g_height r =? 0)) eqn:Ec; [|destruct Hin].
+    rewrite !andb_true_iff in Ec. destruct Ec as (((E1 & E2) & E3) & E4).
+    apply N.eqb_eq in E1. apply Bool.eqb_prop in E2.
+    destruct (credit_by_height (credits (ps_w s)) (g_tx r) (g_height r) (g_vout r)) as [c|] eqn:Ecr; [|destruct Hin].
+    destruct (credit_by_height_some _ _ _ _ _ Ecr) as (Hc & A & B & C).
+    destruct (ro_accurate _ _ R r c Hr Hc (conj A (conj B C))) as [b [Hk Er]].
+    assert (Eb : b = binding) by (rewrite Er in E2; cbn in E2; exact E2). subst b.
+    destruct (binding && negb (binding_tx_readable n s (g_tx r) (g_height r))) eqn:Erd; [destruct Hin|].
+    destruct Hin as [<-|[]]. exists c. split; [exact Hc|]. split; [rewrite Er in E1; exact E1|]. split; [exact Hk|]. split; [|split].
+    + intros ->. cbn in E3. rewrite Er in E3. cbn in E3. destruct (is_unspent c); [reflexivity|discriminate].
+    + intros ->. cbn in Erd. rewrite <- A, <- B in Erd. destruct (binding_tx_readable n s (c_tx c) (c_height c)); [reflexivity|discriminate].
+    + unfold hrow_of. rewrite <- A, <- B, <- C. reflexivity.
+  - intros [c (Hc & Hw & Hk & Hex & Hrd & ->)].
+    exists (row_of c binding). split; [apply (ro_complete _ _ R); assumption|].
+    cbn [row_of mk_grow g_wallet g_binding g_withdrawn g_tx g_height g_vout].
+    rewrite Hw, N.eqb_refl, Bool.eqb_reflx. cbn [andb].
+    assert (E3 : negb (excl && negb (is_unspent c)) = true).
+    { destruct excl; [rewrite (Hex eq_refl); reflexivity|reflexivity]. }
+    rewrite E3. assert (E4 : negb (c_height c =? 0) = true).
+    { destruct (c_height c =? 0) eqn:E; [apply Z.eqb_eq in E; exfalso; exact (Hh c Hc E)|reflexivity]. }
+    rewrite E4. cbn [andb]. rewrite (credit_by_height_unique _ c U Hc).
+    destruct binding.
+    + rewrite (Hrd eq_refl). cbn. left. reflexivity.
+    + cbn. left. reflexivity.
+Qed.
+
+Lemma NoDup_flat_map_keys :
+  forall (A B K : Type) (f : A -> list B) (key : B -> K) (l : list A),
+    NoDup l -> (forall a, (length (f a) <= 1)%nat) ->
+    (forall a1 a2 b1 b2, In a1 l -> In a2 l -> In b1 (f a1) -> In b2 (f a2) -> key b1 = key b2 -> a1 = a2) ->
+    NoDup (map key (flat_map f l)).
+Proof.
+  intros A B K f key l. induction l as [|a l IH]; intros ND Hlen Hinj; cbn [flat_map map]; [constructor|].
+  inversion ND as [|x l' Hx Hl]; subst. rewrite map_app.
+  assert (IHl : NoDup (map key (flat_map f l))).
+  { apply IH; [exact Hl|exact Hlen|]. intros a1 a2 b1 b2 H1 H2. apply Hinj; right; assumption. }
+  destruct (f a) as [|b [|b' rest]] eqn:Ef.
+  - exact IHl.
+  - cbn [map app]. constructor; [|exact IHl].
+    intros Hin. apply in_map_iff in Hin. destruct Hin as [b2 [Ek Hb2]]. apply in_flat_map in Hb2. destruct Hb2 as [a2 [Ha2 Hf2]].
+    assert (a = a2).
+    { apply (Hinj a a2 b b2); [left; reflexivity|right; exact Ha2|rewrite Ef; left; reflexivity|exact Hf2|symmetry; exact Ek]. }
+    subst a2. contradiction.
+  - exfalso. specialize (Hlen a). rewrite Ef in Hlen. cbn in Hlen. lia.
+Qed.
+
+(* each deposit is listed once *)
+Theorem mined_history_once :
+  forall n s w binding excl,
+    rows_ok (credits (ps_w s)) (ps_game s) ->
+    NoDup (map (fun hr => (hr_tx hr, hr_height hr, hr_vout hr)) (mined_history n s w binding excl)).
+Proof.
+  intros n s w binding excl R. unfold mined_history.
+  apply NoDup_flat_map_keys.
+  - exact (ro_nodup _ _ R).
+  - intros r.
+    destruct ((g_wallet r =? w)%N && Bool.eqb (g_binding r) binding && negb (excl && g_withdrawn r) && negb (g_height r =? 0)); [|cbn; lia].
+    destruct (credit_by_height (credits (ps_w s)) (g_tx r) (g_height r) (g_vout r)); [|cbn; lia].
+    destruct (binding && negb (binding_tx_readable n s (g_tx r) (g_height r))); cbn; lia.
+  - intros r1 r2 b1 b2 Hr1 Hr2 Hb1 Hb2 Ek.
+    assert (Hone : forall r b, In r (ps_game s) ->
+              In b (if (g_wallet r =? w)%N && Bool.eqb (g_binding r) binding && negb (excl && g_withdrawn r) && negb (g_height r =? 0)
+                    then match credit_by_height (credits (ps_w s)) (g_tx r) (g_height r) (g_vout r) with
+                         | Some c => if binding && negb (binding_tx_readable n s (g_tx r) (g_height r)) then []
+                                     else [ {| hr_tx := g_tx r; hr_vout := g_vout r; hr_amount := c_amount c; hr_sh := c_sh c;
+                                               hr_frozen := (if binding then 0 else c_maturity c - 1); hr_height := g_height r;
+                                               hr_spent := negb (is_unspent c);
+                                               hr_sbu := (if is_unspent c then spent_by_unmined s (g_tx r, g_vout r) else false);
+                                               hr_pending := false |} ]
+                         | None => []
+                         end
+                    else []) ->
+              (hr_tx b, hr_height b, hr_vout b) = (g_tx r, g_height r, g_vout r) /\
+              exists c bb, In c (credits (ps_w s)) /\ same_key r c /\ r = row_of c bb).
+    { intros r b Hr Hb.
+      destruct ((g_wallet r =? w)%N && Bool.eqb (g_binding r) binding && negb (excl && g_withdrawn r) && negb (g_height r =? 0)); [|destruct Hb].
+      destruct (credit_by_height (credits (ps_w s)) (g_tx r) (g_height r) (g_vout r)) as [c|] eqn:E; [|destruct Hb].
+      destruct (binding && negb (binding_tx_readable n s (g_tx r) (g_height r))); [destruct Hb|].
+      destruct Hb as [<-|[]]. split; [reflexivity|].
+      destruct (credit_by_height_some _ _ _ _ _ E) as (Hc & A & B & C).
+      destruct (ro_accurate _ _ R r c Hr Hc (conj A (conj B C))) as [bb [_ Er]].
+      exists c, bb. split; [exact Hc|]. split; [exact (conj A (conj B C))|exact Er]. }
+    destruct (Hone r1 b1 Hr1 Hb1) as [K1 (c1 & bb1 & Hc1 & Hs1 & E1)].
+    destruct (Hone r2 b2 Hr2 Hb2) as [K2 (c2 & bb2 & Hc2 & Hs2 & E2)].
+    assert (Ekk : (g_tx r1, g_height r1, g_vout r1) = (g_tx r2, g_height r2, g_vout r2)) by congruence.
+    (* r2 has the key of c1 as well: by accuracy it is the row of c1 *)
+    assert (Hs21 : same_key r2 c1).
+    { destruct Hs1 as (A & B & C). inversion Ekk. unfold same_key. repeat split; congruence. }
+    destruct (ro_accurate _ _ R r2 c1 Hr2 Hc1 Hs21) as [b3 [K3 E3]].
+    destruct (ro_accurate _ _ R r1 c1 Hr1 Hc1 Hs1) as [b4 [K4 E4]].
+    congruence.
+Qed.
+
+(* ---- rollback: a withdrawal that is reorganised away shows the deposit as not withdrawn again *)
+
+Lemma unwithdraw_ins_effect :
+  forall idx cs g tid h g', unwithdraw_ins cs g tid h idx = POk g' ->
+    (* every flipped row is the row of a debit of this transaction *)
+    (forall x, In x g' -> In x g \/ exists i c b, In i idx /\ debit_of cs tid i h = Some c /\ game_kind (c_class c) = Some b /\
+                                       x = mk_grow (c_wallet c) b false (c_tx c) (c_height c) (c_vout c)) /\
+    (forall x, In x g -> In x g' \/ exists i c b, In i idx /\ debit_of cs tid i h = Some c /\ game_kind (c_class c) = Some b /\
+                                       x = mk_grow (c_wallet c) b true (c_tx c) (c_height c) (c_vout c)) /\
+    (* the last debit's deposit is shown as not withdrawn *)
+    (NoDup g -> NoDup g').
+Proof.
+  induction idx as [|i idx IH]; intros cs g tid h g' H; cbn [unwithdraw_ins] in H.
+  - inversion H; subst. repeat split; auto.
+  - destruct (debit_of cs tid i h) as [c|] eqn:Ed.
+    + destruct (game_kind (c_class c)) as [b|] eqn:Ek.
+      * destruct (g_mem _ g) eqn:Em; [|discriminate].
+        destruct (IH _ _ _ _ _ H) as (A & B & C). split; [|split].
+        -- intros x Hx. destruct (A x Hx) as [Hg|(j & c2 & b2 & Hj & P1 & P2 & P3)].
+           ++ apply g_put_in in Hg. destruct Hg as [->|Hg].
+              ** right. exists i, c, b. split; [left; reflexivity|]. auto.
+              ** apply g_del_in in Hg. left. exact (proj1 Hg).
+           ++ right. exists j, c2, b2. split; [right; exact Hj|]. auto.
+        -- intros x Hx.
+           destruct (grow_eqb (mk_grow (c_wallet c) b true (c_tx c) (c_height c) (c_vout c)) x) eqn:Ex.
+           ++ apply grow_eqb_eq in Ex. right. exists i, c, b. split; [left; reflexivity|]. auto.
+           ++ assert (Hx1 : In x (g_put (g_del g (mk_grow (c_wallet c) b true (c_tx c) (c_height c) (c_vout c)))
+                                        (mk_grow (c_wallet c) b false (c_tx c) (c_height c) (c_vout c)))).
+              { apply g_put_in. right. apply g_del_in. split; [exact Hx|]. intros ->.
+                rewrite (proj2 (grow_eqb_eq _ _) eq_refl) in Ex. discriminate. }
+              destruct (B x Hx1) as [Hg'|(j & c2 & b2 & Hj & P1 & P2 & P3)]; [left; exact Hg'|].
+              right. exists j, c2, b2. split; [right; exact Hj|]. auto.
+        -- intros ND. apply C. apply g_put_nodup. apply g_del_nodup. exact ND.
+      * destruct (IH _ _ _ _ _ H) as (A & B & C). split; [|split]; [| |exact C].
+        -- intros x Hx. destruct (A x Hx) as [Hg|(j & c2 & b2 & Hj & P)]; [left; exact Hg|right; exists j, c2, b2; split; [right; exact Hj|exact P]].
+        -- intros x Hx. destruct (B x Hx) as [Hg|(j & c2 & b2 & Hj & P)]; [left; exact Hg|right; exists j, c2, b2; split; [right; exact Hj|exact P]].
+    + destruct (IH _ _ _ _ _ H) as (A & B & C). split; [|split]; [| |exact C].
+      * intros x Hx. destruct (A x Hx) as [Hg|(j & c2 & b2 & Hj & P)]; [left; exact Hg|right; exists j, c2, b2; split; [right; exact Hj|exact P]].
+      * intros x Hx. destruct (B x Hx) as [Hg|(j & c2 & b2 & Hj & P)]; [left; exact Hg|right; exists j, c2, b2; split; [right; exact Hj|exact P]].
+Qed.
+
+(* a state with one pending transaction whose registrations are its own inputs satisfies the guard *)
+Lemma guard_one :
+  forall s h t, ps_unmined s = [(h, USer t)] ->
+    (forall o sp, In sp (ui_get (ps_uinputs s) o) -> sp = h /\ In o (t_ins t)) -> guard s.
+Proof.
+  intros s h t E Hui.
+  assert (P : forall k v, pend s k = Some v -> k = h /\ v = USer t).
+  { intros k v Hk. unfold pend, um_get in Hk. rewrite E in Hk. cbn [find fst snd] in Hk.
+    destruct (h =? k)%N eqn:Ek; [|discriminate]. apply N.eqb_eq in Ek. inversion Hk. auto. }
+  split; [|split].
+  - intros h1 t1 h2 t2 o H1 H2 _ _. destruct (P _ _ H1) as [-> _]. destruct (P _ _ H2) as [-> _]. reflexivity.
+  - intros o sp st Hin Hp. destruct (P _ _ Hp) as [_ Ev]. inversion Ev; subst st. exact (proj2 (Hui o sp Hin)).
+  - intros k Hk. destruct (P _ _ Hk) as [_ Ev]. discriminate.
+Qed.
